@@ -461,3 +461,17 @@ def r14_11(run):
 
 
 RULES.append(("R14.11", r14_11))
+
+EXPLANATION += (' ' + '(R14.12, shared with C12 R12.1) a resolved option value is never written into the tables of the net: a default filled in for missing '
+                'entries (ambient_temperature for pipes without text_k) goes into the pit, so the next call resolves the option anew.')
+
+
+def r14_12(run):
+    """precedence holds for every call, not only the first: an option used as the fill value of missing table entries must not be stored
+    in the table (an in-place fill through `.values` makes the first call's value an explicit entry that overrules the layers of all
+    later calls) -- shared with C12 R12.1 (no in-place write to user tables reachable from pipeflow)."""
+    from .c12 import r12_1
+    r12_1(run)
+
+
+RULES.append(("R14.12", r14_12))
